@@ -166,7 +166,7 @@ class MultiscaleCompositeTransform(Transform):
         total_logabsdet = inputs.new_zeros(batch_size)
 
         for outputs, logabsdet in cascade():
-            all_outputs.append(outputs.reshape(batch_size, -1))
+            all_outputs.append(outputs.reshape(batch_size, int(np.prod(outputs.shape[1:]))))
             total_logabsdet += logabsdet
 
         all_outputs = torch.cat(all_outputs, dim=-1)
@@ -191,7 +191,7 @@ class MultiscaleCompositeTransform(Transform):
         split_inputs = []
         for i in range(len(self._output_shapes)):
             flat_input = inputs[:, split_indices[i] : split_indices[i + 1]]
-            split_inputs.append(flat_input.view(-1, *self._output_shapes[i]))
+            split_inputs.append(flat_input.view(batch_size, *self._output_shapes[i]))
         rev_split_inputs = split_inputs[::-1]
 
         total_logabsdet = inputs.new_zeros(batch_size)
